@@ -123,15 +123,35 @@ package rjson
 //@   input data
 //@   cuts st_case_*
 //@   candidates 0 <= p; p < pe
+//@   candidates forall(j, 0, p, ws(data[j]))
+//@   candidates litat(data, p-1, "n") && forall(j, 0, p-1, ws(data[j]))
+//@   candidates litat(data, p-2, "nu") && forall(j, 0, p-2, ws(data[j]))
+//@   candidates litat(data, p-3, "nul") && forall(j, 0, p-3, ws(data[j]))
+//@   candidates litat(data, p-4, "null") && forall(j, 0, p-4, ws(data[j]))
 //@   measure pe - p
 //@   ensures err == nil ==> 0 <= p && p <= len(data)
+//@   ensures [C13,C08,C12] err == nil <==> litat(data, wsrun(data, 0), "null")
+//@   ensures [C13,C08,C12] err == nil ==> p == wsrun(data, 0) + 4
 //
 //@ func readBool(data) (val, p, err)
 //@   input data
 //@   cuts st_case_*
 //@   candidates 0 <= p; p < pe
+//@   candidates forall(j, 0, p, ws(data[j]))
+//@   candidates litat(data, p-1, "t") && forall(j, 0, p-1, ws(data[j]))
+//@   candidates litat(data, p-2, "tr") && forall(j, 0, p-2, ws(data[j]))
+//@   candidates litat(data, p-3, "tru") && forall(j, 0, p-3, ws(data[j]))
+//@   candidates litat(data, p-1, "f") && forall(j, 0, p-1, ws(data[j]))
+//@   candidates litat(data, p-2, "fa") && forall(j, 0, p-2, ws(data[j]))
+//@   candidates litat(data, p-3, "fal") && forall(j, 0, p-3, ws(data[j]))
+//@   candidates litat(data, p-4, "fals") && forall(j, 0, p-4, ws(data[j]))
+//@   candidates val ==> litat(data, p-4, "true") && forall(j, 0, p-4, ws(data[j]))
+//@   candidates !val ==> litat(data, p-5, "false") && forall(j, 0, p-5, ws(data[j]))
 //@   measure pe - p
 //@   ensures err == nil ==> 0 <= p && p <= len(data)
+//@   ensures [C13,C08,C12] err == nil <==> litat(data, wsrun(data, 0), "true") || litat(data, wsrun(data, 0), "false")
+//@   ensures [C13,C08,C12] err == nil ==> val == litat(data, wsrun(data, 0), "true") && p == wsrun(data, 0) + ite(val, 4, 5)
+//
 //@ func unescapeStringContent(data, dst) (val, p, err)
 //@   input data
 //@   cuts st_case_*
@@ -196,44 +216,82 @@ package rjson
 //@   ensures err == io.EOF ==> p == len(data) && token == 0 && forall(j, 0, len(data), ws(data[j]))
 //@   ensures err != io.EOF ==> 1 <= p && p <= len(data) && !ws(data[p-1]) && token == data[p-1] && forall(j, 0, p-1, ws(data[j]))
 //@   ensures err != io.EOF ==> (err == nil <==> tokclass(data[p-1]) != 0)
+// ---------------------------------------------------------------- integer literal specification (C05)
+// uintok/uintval/uintend: JSON integer literal without sign starting at s (RFC 8259 `int` without '-'):
+// `0` or [1-9][0-9]*, not followed by a fraction or exponent, value < 2^64 (DV saturates at 2^64).
+//@ global let numcontb(data, i) = i < len(data) && (data[i] == '.' || data[i] == 'e' || data[i] == 'E')
+//@ global let uintok(data, s) = s < len(data) && ((data[s] == '0' && !numcontb(data, s+1)) || (d19(data[s]) && !numcontb(data, digrun(data, s)) && DVrun(data, s) < 0x10000000000000000))
+//@ global let uintend(data, s) = ite(data[s] == '0', s+1, digrun(data, s))
+//@ global let uintval(data, s) = ite(data[s] == '0', u128(0), DVrun(data, s))
+//@ global let intneg(data) = wsrun(data, 0) < len(data) && data[wsrun(data, 0)] == '-'
+//@ global let ints(data) = ite(intneg(data), wsrun(data, 0) + 1, wsrun(data, 0))
+//@ global let intmag(data) = uintval(data, ints(data))
+//@ global let intval(data) = s128(ite(intneg(data), -intmag(data), intmag(data)))
+//@ global let int64ok(data) = uintok(data, ints(data)) && ite(intneg(data), intmag(data) <= 0x8000000000000000, intmag(data) < 0x8000000000000000)
+//@ global let intend(data) = uintend(data, ints(data))
+//@ global let uint64ok(data) = uintok(data, wsrun(data, 0))
+//
 // ---------------------------------------------------------------- simple_readers.go
 //@ func ReadUint64(data) (val, p, err)
 //@   input data
+//@   let k = wsrun(data, 0)
 //@   ensures err == nil ==> 0 <= p && p <= len(data)
+//@   ensures [C05,C08,C13] err == nil <==> uintok(data, k)
+//@   ensures [C05,C08,C13] err == nil ==> u128(val) == uintval(data, k) && p == uintend(data, k)
+//@   ensures [C13] err == nil ==> tokclass(data[wsrun(data, 0)]) == 3
 //@   defines (err == nil) == rok(ReadUint64, data)
 //@   defines err == nil ==> val == rval(ReadUint64, data) && p == rp(ReadUint64, data)
-//@   loop 1 invariant 0 <= startP && startP <= p && p <= len(data)
+//@   loop 1 invariant startP == k && data[startP] != '0' && startP <= p && p <= len(data) && p - startP <= 18
+//@   loop 1 invariant forall(j, startP, p, digit(data[j]))
+//@   loop 1 invariant u128(val) == DV(data, startP, p) && DV(data, startP, p) < pow10(p - startP)
 //@   loop 1 decreases len(data) - p
-//@   loop 2 invariant 0 <= startP && startP <= p && p <= len(data)
+//@   loop 2 invariant startP == k && 0 <= startP && startP <= p && data[startP] != '0' && p - startP >= 18 && p <= len(data)
+//@   loop 2 invariant forall(j, startP, p, digit(data[j]))
+//@   loop 2 invariant u128(val) == DV(data, startP, p) && DV(data, startP, p) < 0x10000000000000000
 //@   loop 2 decreases len(data) - p
 //
 //@ func ReadUint32(data) (val, p, err)
 //@   input data
 //@   ensures err == nil ==> 0 <= p && p <= len(data)
+//@   ensures [C05,C08,C13] err == nil <==> uint64ok(data) && uintval(data, wsrun(data, 0)) <= 0xFFFFFFFF
+//@   ensures [C05,C08,C13] err == nil ==> u128(val) == uintval(data, wsrun(data, 0)) && p == uintend(data, wsrun(data, 0))
+//@   ensures [C13] err == nil ==> tokclass(data[wsrun(data, 0)]) == 3
 //@   defines (err == nil) == rok(ReadUint32, data)
 //@   defines err == nil ==> val == rval(ReadUint32, data) && p == rp(ReadUint32, data)
 //
 //@ func ReadInt64(data) (val, p, err)
 //@   input data
 //@   ensures err == nil ==> 0 <= p && p <= len(data)
+//@   ensures [C05,C08,C13] err == nil <==> int64ok(data)
+//@   ensures [C05,C08,C13] err == nil ==> s128(val) == intval(data) && p == intend(data)
+//@   ensures [C13] err == nil ==> tokclass(data[wsrun(data, 0)]) == 3
 //@   defines (err == nil) == rok(ReadInt64, data)
 //@   defines err == nil ==> val == rval(ReadInt64, data) && p == rp(ReadInt64, data)
 //
 //@ func ReadInt32(data) (val, p, err)
 //@   input data
 //@   ensures err == nil ==> 0 <= p && p <= len(data)
+//@   ensures [C05,C08,C13] err == nil <==> int64ok(data) && -2147483648 <= intval(data) && intval(data) <= 2147483647
+//@   ensures [C05,C08,C13] err == nil ==> s128(val) == intval(data) && p == intend(data)
+//@   ensures [C13] err == nil ==> tokclass(data[wsrun(data, 0)]) == 3
 //@   defines (err == nil) == rok(ReadInt32, data)
 //@   defines err == nil ==> val == rval(ReadInt32, data) && p == rp(ReadInt32, data)
 //
 //@ func ReadInt(data) (val, p, err)
 //@   input data
 //@   ensures err == nil ==> 0 <= p && p <= len(data)
+//@   ensures [C05,C08,C13] err == nil <==> int64ok(data)
+//@   ensures [C05,C08,C13] err == nil ==> s128(val) == intval(data) && p == intend(data)
+//@   ensures [C13] err == nil ==> tokclass(data[wsrun(data, 0)]) == 3
 //@   defines (err == nil) == rok(ReadInt, data)
 //@   defines err == nil ==> val == rval(ReadInt, data) && p == rp(ReadInt, data)
 //
 //@ func ReadUint(data) (val, p, err)
 //@   input data
 //@   ensures err == nil ==> 0 <= p && p <= len(data)
+//@   ensures [C05,C08,C13] err == nil <==> uint64ok(data)
+//@   ensures [C05,C08,C13] err == nil ==> u128(val) == uintval(data, wsrun(data, 0)) && p == uintend(data, wsrun(data, 0))
+//@   ensures [C13] err == nil ==> tokclass(data[wsrun(data, 0)]) == 3
 //@   defines (err == nil) == rok(ReadUint, data)
 //@   defines err == nil ==> val == rval(ReadUint, data) && p == rp(ReadUint, data)
 //
@@ -246,28 +304,38 @@ package rjson
 //@ func ReadBool(data) (val, p, err)
 //@   input data
 //@   ensures err == nil ==> 0 <= p && p <= len(data)
+//@   ensures [C13,C08] err == nil <==> litat(data, wsrun(data, 0), "true") || litat(data, wsrun(data, 0), "false")
+//@   ensures [C13,C08] err == nil ==> val == litat(data, wsrun(data, 0), "true") && p == wsrun(data, 0) + ite(val, 4, 5)
+//@   ensures [C13] err == nil ==> tokclass(data[wsrun(data, 0)]) == 4 || tokclass(data[wsrun(data, 0)]) == 5
 //@   defines (err == nil) == rok(ReadBool, data)
 //@   defines err == nil ==> val == rval(ReadBool, data) && p == rp(ReadBool, data)
 //
 //@ func ReadNull(data) (p, err)
 //@   input data
 //@   ensures err == nil ==> 0 <= p && p <= len(data)
+//@   ensures [C13,C08] err == nil <==> litat(data, wsrun(data, 0), "null")
+//@   ensures [C13,C08] err == nil ==> p == wsrun(data, 0) + 4
+//@   ensures [C13] err == nil ==> tokclass(data[wsrun(data, 0)]) == 1
 //@   defines (err == nil) == rok(ReadNull, data)
 //@   defines err == nil ==> p == rp(ReadNull, data)
 //
 //@ func ReadStringBytes(data, buf) (val, p, err)
 //@   input data
 //@   ensures err == nil ==> 0 <= p && p <= len(data)
+//@   ensures [C13] err == nil ==> tokclass(data[wsrun(data, 0)]) == 2
 //@   loop 1 invariant 0 < start && start <= p && p <= len(data)
+//@   loop 1 invariant start - 1 == wsrun(data, 0) && data[start-1] == '"'
 //@   loop 1 decreases len(data) - p
 //
 //@ func ReadString(data, buf) (val, p, err)
 //@   input data
 //@   assigns *buf
 //@   ensures err == nil ==> 0 <= p && p <= len(data)
+//@   ensures [C13] err == nil ==> tokclass(data[wsrun(data, 0)]) == 2
 //@   defines (err == nil) == rok(ReadString, data)
 //@   defines err == nil ==> p == rp(ReadString, data)
 //@   loop 1 invariant 0 < start && start <= p && p <= len(data)
+//@   loop 1 invariant start - 1 == wsrun(data, 0) && data[start-1] == '"'
 //@   loop 1 decreases len(data) - p
 // ---------------------------------------------------------------- decode.go
 //@ func nullOrBust(data, origErr) (p, err)
